@@ -88,7 +88,30 @@ def run(ctx):
         ctx.case(str(jb), nontrivial=True)
     ctx.sample({"cfg": traces[0]["cfg"], "events": traces[0]["ev"][:2]})
     ctx.extra["mutations_validated"] = sum(len(t["ev"]) for t in traces)
-    ctx.validate("EvoHP_Trace", TRACE_CFG, traces, sig=sig, what=what, chunk=200)
+    # exact traces live on a dyadic grid (factors, bounds and values are k / 2^m): a recorded value off that grid cannot be the
+    # product of the agent's own value with a configured factor; it is reported here (TLC's 32-bit rationals would overflow on it)
+    def _off_grid(x):
+        return isinstance(x, list) and len(x) == 2 and all(isinstance(v, int) for v in x) and (x[1] > 2 ** 20 or abs(x[0]) > 2 ** 26)
+    ongrid = []
+    for t in traces:
+        bad = None
+        if t["cfg"].get("exact"):
+            for k, e in enumerate(t["ev"]):
+                vals = [v for row in e.get("after", []) for v in row] + [v for ag in e.get("lrs", []) for grp in ag for v in grp]
+                if any(_off_grid(v) for v in vals):
+                    bad = (k, e)
+                    break
+        if bad is None:
+            ongrid.append(t)
+            continue
+        k, e = bad
+        mode = "eqval" if t["cfg"].get("eq_lr") == "value" else "eqlr" if t["cfg"].get("eq_lr") else ("shared" if t["cfg"]["shared"] else "own")
+        ctx.violation(f"hp:{t['cfg']['algo']}:{mode}:{e.get('op', '?')}:new value = own current value x shrink or grow factor, clipped to [min, max], cast to the configured type:off-grid",
+                      f"{t['cfg']['algo']}: event {k + 1} {e.get('op')} produced a value that is no product of dyadic values and factors (exact mode): after={e.get('after')}; configured hps={t['cfg']['hps']}",
+                      {"kind": "off-grid", "trace": {"cfg": t["cfg"], "ev": t["ev"][:k + 1]}})
+        if k > 0:
+            ongrid.append({"cfg": t["cfg"], "ev": t["ev"][:k]})
+    ctx.validate("EvoHP_Trace", TRACE_CFG, ongrid, sig=sig, what=what, chunk=200)
     ctx.assume("exact traces use dyadic shrink/grow factors, bounds and values so that float products are exact; Fraction(float) is exact")
     ctx.assume("the direction (shrink/grow) and the hyperparameter are drawn by the real code and observed; either direction is accepted")
     return "model_checking", "case = (algorithm, population size, sequence of per-agent / population mutations and copies, exact or default factors, shared or own configuration object)", False
